@@ -366,7 +366,7 @@ def sky_case(draw):
         # an unrelated flag on the highest bit of the mask type (the sign bit of a signed mask: the pixel value is negative)
         other.append([draw(st.integers(0, nrow - 1)), draw(st.integers(0, npix - 1)), 8 * int(dt[1]) - 1])
     return dict(dtype=dt, b1=b1, b2=b2, nrow=nrow, npix=npix, flags=flags, other=other, ngrow=draw(st.sampled_from([2, 0, 1, 3, 4])) if not big else draw(st.sampled_from([128, 127, 150, 64])),
-                with_ormask=draw(st.sampled_from([True, True, True, False])),
+                with_ormask=draw(st.sampled_from([True, True, True, False])), sign_on_flags=draw(st.sampled_from([False, False, True])),
                 and_flags=[[draw(st.integers(0, nrow - 1)), draw(st.integers(0, npix - 1))] for _ in range(draw(st.sampled_from([0, 0, 1, 3])))])
 
 
@@ -392,6 +392,8 @@ def sky_body(case):
                 om[r, c] |= dt.type(1 << case['b1']) if dt.kind == 'u' or case['b1'] < width - 1 else np.iinfo(dt).min
             if what in ('red', 'both'):
                 om[r, c] |= dt.type(1 << case['b2']) if dt.kind == 'u' or case['b2'] < width - 1 else np.iinfo(dt).min
+            if case.get('sign_on_flags') and dt.kind == 'i':
+                om[r, c] |= np.iinfo(dt).min          # the highest bit of a signed mask is a flag like any other: these pixel values are negative
             flagged[r, c] = True
         if max(case['b1'], case['b2']) >= width:
             note_label('mask-narrower-than-flags')
